@@ -8,6 +8,7 @@ CFG = {
         "Leptos.Url.C15_path_param_once",
         "Leptos.Url.C15_path_param_lossy",
         "Leptos.Url.C15_query_roundtrip",
+        "Leptos.Url.C15_collect_once",
         "Leptos.Url.C15_nested_params_once",
         "Leptos.Url.C15_nested_params_eq_flat",
         "Leptos.Url.C15_nested_double_decode_witness",
@@ -31,7 +32,7 @@ CFG = {
         "its form_urlencoded::parse is also the harness oracle for 'decoded once'",
         "percent-encoding crate (modelled: pctDecode / escape), core::str UTF-8 validation and from_utf8_lossy (modelled: utf8Next)",
     ],
-    "modelled": ["Url::escape", "Url::unescape", "ParamsMap::insert/to_query_string/FromIterator", "RequestUrl::parse (query part)",
+    "modelled": ["Url::escape", "Url::unescape", "ParamsMap::insert/to_query_string/FromIterator (collect of pair lists with adjacent and non-adjacent repeated keys)", "RequestUrl::parse (query part)",
                  "ParamSegment + ParamsMap::insert as the routers combine them",
                  "nested_router.rs params_including_parents (merge of the matched routes' decoded maps)",
                  "hooks.rs use_params_map / use_query_map as seen by a view of a server-rendered <Router> application "
